@@ -1234,6 +1234,28 @@ def _desugar_union_star(stmts):
     return out
 
 
+def _merge_if_calls(stmts):
+    """if c: f(A) else: f(B)   (same callee, one argument differs, both arguments are plain values)   ->   f(A if c else B)"""
+    out = []
+    for s in stmts:
+        for fld in ("body", "orelse", "finalbody"):
+            if isinstance(getattr(s, fld, None), list) and not isinstance(s, (ast.FunctionDef, ast.ClassDef)):
+                setattr(s, fld, _merge_if_calls(getattr(s, fld)))
+        for hnd in getattr(s, "handlers", []) or []:
+            hnd.body = _merge_if_calls(hnd.body)
+        if isinstance(s, ast.If) and len(s.body) == 1 and len(s.orelse) == 1 and all(isinstance(x, ast.Expr) and isinstance(x.value, ast.Call) for x in (s.body[0], s.orelse[0])):
+            a, b = s.body[0].value, s.orelse[0].value
+            if norm_(a.func) == norm_(b.func) and len(a.args) == len(b.args) and not a.keywords and not b.keywords and _pure_arg(a.func):
+                diff = [i for i, (x, y) in enumerate(zip(a.args, b.args)) if norm_(x) != norm_(y)]
+                if len(diff) == 1 and all(_pure_arg(z) for z in (a.args[diff[0]], b.args[diff[0]])):
+                    args = list(a.args)
+                    args[diff[0]] = ast.IfExp(test=s.test, body=a.args[diff[0]], orelse=b.args[diff[0]])
+                    out.append(ast.copy_location(ast.Expr(value=ast.Call(func=a.func, args=args, keywords=[])), s))
+                    continue
+        out.append(s)
+    return out
+
+
 def _propagate_option_flags(fn):
     """flag = <...>.options.<field>  (bound once)  ->  uses of flag replaced by the attribute chain."""
     stores = {}
@@ -1334,6 +1356,7 @@ def canonical_function(mod, fn, depth=3):
     new = _QuantifierNorm().visit(new)
     new = _propagate_pure_locals(new)
     new.body = _split_ifexp_calls(new.body)
+    new.body = _merge_if_calls(new.body)
     new = _propagate_option_flags(new)
     local_names = _assigned_names(new)
     new = _ConstProp(_module_constants(mod), local_names).visit(new)
